@@ -149,6 +149,11 @@ def build_cells(tier, backend):
         cells.append((f"agg:SumSeed:{ek}", f"{seq}.Aggregate(e.{coll}('A').Select(lambda j: j.nTrk()).Sum(), lambda acc, v: acc + v)", "ev", ("any", None)))
         cells.append((f"agg:CountSeedMul:{ek}", f"{seq}.Aggregate({cnt}, lambda acc, v: acc * v + 1)", "ev", ("any", None)))
         cells.append((f"agg:IntExprSeed:{ek}", f"{seq}.Aggregate({cnt} + 1, lambda acc, v: acc + v)", "ev", ("any", None)))
+        # the update does not use the accumulator arithmetically ("last value, or the default"): the accumulator is still at
+        # least as wide as its seed - a fractional default survives an empty sequence
+        cells.append((f"agg:LastOrHalf:{ek}", f"{seq}.Aggregate(0.5, lambda acc, v: v)", "ev", ("floating", 2)))
+        cells.append((f"agg:LastOrHalfGuarded:{ek}", f"{seq}.Aggregate(0.5, lambda acc, v: (v if v > 1 else acc))", "ev", ("floating", 2)))
+        cells.append((f"agg:LastOrMinusOne:{ek}", f"{seq}.Aggregate(-1, lambda acc, v: v)", "ev", summ if ec != "bool" else ("any", None)))
         cells.append((f"agg:CondAdd:{ek}", f"{seq}.Aggregate(1, lambda acc, v: acc + (v if v > 1 else 1))", "ev", ("any", None)))
     if True:
         # two-operator expressions: precedence / parenthesisation.  Quick: every operator pair on two operand-kind triples;
